@@ -26,6 +26,7 @@ ENGINE = "tasks"
 LEVEL = "exploration"
 TECHNIQUE = "deterministic simulation: random program trees run by real inlineCallbacks/ensureDeferred under seeded firing order and cancellation points vs synchronous reference interpreter"
 QUICK_RUNS = 60000
+TWIN_P = 0.08   # this share of the runs drives two independent instances of the scenario one after the other (detsim.runner._run_scenario)
 BATCH = 400
 RUN_WALL_LIMIT_S = 120   # runs take milliseconds; generous because whole-machine stalls >20 s were seen under load
 COMPONENTS = {"real": ["twisted.internet.defer.inlineCallbacks", "twisted.internet.defer._inlineCallbacks",
